@@ -275,6 +275,33 @@ pub enum Naming {
     Unique,
 }
 
+/// Byte ranges of syntactic sites in the printed text (used by the C15 mutators).
+#[derive(Clone, Debug)]
+pub enum Site {
+    VarUse(usize, usize),
+    CovarUse(usize, usize),
+    DefUse(usize, usize),
+    CtorUse(usize, usize),
+    DtorUse(usize, usize),
+    TypeUse(usize, usize),
+    /// argument list of a call / constructor / destructor: `insert_at` is where "(...)" goes when absent
+    ArgList { open: usize, close: usize, present: bool, n: usize, last_start: usize, insert_at: usize },
+    IntArg(usize, usize),
+    ObjArg(usize, usize),
+    Clauses { ranges: Vec<(usize, usize)>, is_case: bool, inst: usize },
+    Binders { open: usize, close: usize, present: bool, n: usize, insert_at: usize },
+    TypeArgs { a: usize, b: usize, present: bool },
+    LabelBody { name: String, a: usize, b: usize },
+    LetBody { name: String, a: usize, b: usize },
+    DefText { a: usize, b: usize, def: usize },
+    DeclText { a: usize, b: usize },
+    XtorDecl { a: usize, b: usize },
+    Params { open: usize, close: usize, n: usize, first: (usize, usize) },
+    TypeParams { a: usize, b: usize, n: usize },
+    RetType { a: usize, b: usize, def: usize },
+    FieldType { a: usize, b: usize, is_app: bool },
+}
+
 pub struct Printer<'a> {
     pub p: &'a Prog,
     pub naming: Naming,
@@ -284,6 +311,7 @@ pub struct Printer<'a> {
     /// comments, odd spacing, `-0` and empty argument lists
     pub noise: Option<crate::rng::Rng>,
     pub neg_zero_emitted: bool,
+    pub sites: Vec<Site>,
 }
 
 const L_TERM: u8 = 4;
@@ -293,7 +321,7 @@ const L_T1: u8 = 1;
 
 impl<'a> Printer<'a> {
     pub fn new(p: &'a Prog, naming: Naming) -> Self {
-        Printer { p, naming, out: String::new(), indent: 0, noise: None, neg_zero_emitted: false }
+        Printer { p, naming, out: String::new(), indent: 0, noise: None, neg_zero_emitted: false, sites: Vec::new() }
     }
 
     pub fn bname(&self, b: usize) -> String {
@@ -336,54 +364,77 @@ impl<'a> Printer<'a> {
     fn program_inner(&mut self) -> String {
         let p = self.p;
         for t in &p.templates {
+            let decl_start = self.out.len();
             let kw = if t.is_data { "data" } else { "codata" };
             let _ = write!(self.out, "{kw} {}", t.name);
             if !t.params.is_empty() {
+                let a = self.out.len();
                 let _ = write!(self.out, "[{}]", t.params.join(", "));
+                self.sites.push(Site::TypeParams { a, b: self.out.len(), n: t.params.len() });
             }
             self.out.push_str(" { ");
             for (i, x) in t.xtors.iter().enumerate() {
                 if i > 0 {
                     self.out.push_str(", ");
                 }
+                let xa = self.out.len();
                 self.out.push_str(&x.name);
                 if !x.fields.is_empty() {
-                    let fs: Vec<String> = x
-                        .fields
-                        .iter()
-                        .map(|f| {
-                            format!(
-                                "{}:{} {}",
-                                f.name,
-                                if f.cns { "cns" } else { "" },
-                                p.tyt_str(&f.ty, &t.params)
-                            )
-                        })
-                        .collect();
-                    let _ = write!(self.out, "({})", fs.join(", "));
+                    self.out.push('(');
+                    for (fi, f) in x.fields.iter().enumerate() {
+                        if fi > 0 {
+                            self.out.push_str(", ");
+                        }
+                        let _ = write!(self.out, "{}:{} ", f.name, if f.cns { "cns" } else { "" });
+                        let a = self.out.len();
+                        self.out.push_str(&p.tyt_str(&f.ty, &t.params));
+                        self.sites.push(Site::FieldType { a, b: self.out.len(), is_app: matches!(f.ty, TyT::App(..)) });
+                    }
+                    self.out.push(')');
                 }
                 if !t.is_data {
                     let _ = write!(self.out, " : {}", p.tyt_str(&x.ret, &t.params));
                 }
+                self.sites.push(Site::XtorDecl { a: xa, b: self.out.len() });
             }
             self.out.push_str(" }\n");
+            self.sites.push(Site::DeclText { a: decl_start, b: self.out.len() });
         }
-        for d in &p.defs {
-            let ps: Vec<String> = d
-                .params
-                .iter()
-                .map(|b| {
-                    let bi = &p.binders[*b];
-                    format!("{}:{} {}", self.bname(*b), if bi.cns { "cns" } else { "" }, p.ty_str(bi.ty))
-                })
-                .collect();
-            let _ = write!(self.out, "def {}({}) : {} {{", d.name, ps.join(", "), p.ty_str(d.ret));
+        for (di, d) in p.defs.iter().enumerate() {
+            let def_start = self.out.len();
+            let _ = write!(self.out, "def {}(", d.name);
+            let open = self.out.len() - 1;
+            let mut first = (0, 0);
+            for (i, b) in d.params.iter().enumerate() {
+                if i > 0 {
+                    self.out.push_str(", ");
+                }
+                let pa = self.out.len();
+                let bi = &p.binders[*b];
+                let _ = write!(self.out, "{}:{} ", self.bname(*b), if bi.cns { "cns" } else { "" });
+                let ta = self.out.len();
+                self.out.push_str(&p.ty_str(bi.ty));
+                if bi.ty != Ty::I64 {
+                    self.sites.push(Site::TypeUse(ta, self.out.len()));
+                }
+                if i == 0 {
+                    first = (pa, self.out.len());
+                }
+            }
+            let close = self.out.len();
+            self.sites.push(Site::Params { open, close, n: d.params.len(), first });
+            self.out.push_str(") : ");
+            let ra = self.out.len();
+            self.out.push_str(&p.ty_str(d.ret));
+            self.sites.push(Site::RetType { a: ra, b: self.out.len(), def: di });
+            self.out.push_str(" {");
             self.indent = 1;
             self.nl();
             self.term(&d.body, L_TERM);
             self.indent = 0;
             self.nl();
             self.out.push_str("}\n");
+            self.sites.push(Site::DefText { a: def_start, b: self.out.len(), def: di });
         }
         std::mem::take(&mut self.out)
     }
@@ -397,6 +448,50 @@ impl<'a> Printer<'a> {
         }
     }
 
+    /// prints "(args)" (or nothing for an empty list when `always_parens` is false) and records sites
+    fn arg_list(&mut self, args: &[Arg], sig: &[(bool, Ty)], always_parens: bool) {
+        let insert_at = self.out.len();
+        if args.is_empty() && !always_parens {
+            if self.chance(1, 4) {
+                self.out.push_str("()");
+            } else {
+                self.sites.push(Site::ArgList { open: insert_at, close: insert_at, present: false, n: 0, last_start: insert_at, insert_at });
+            }
+            return;
+        }
+        let open = self.out.len();
+        self.out.push('(');
+        let mut last_start = self.out.len();
+        for (i, a) in args.iter().enumerate() {
+            if i > 0 {
+                self.out.push_str(", ");
+            }
+            last_start = self.out.len();
+            match a {
+                Arg::T(t) => {
+                    self.term(t, L_TERM);
+                    match sig.get(i) {
+                        Some((_, Ty::I64)) => self.sites.push(Site::IntArg(last_start, self.out.len())),
+                        Some(_) => self.sites.push(Site::ObjArg(last_start, self.out.len())),
+                        None => {}
+                    }
+                }
+                Arg::Covar(b) => {
+                    let n = self.bname(*b);
+                    self.out.push_str(&n);
+                    self.sites.push(Site::CovarUse(last_start, self.out.len()));
+                }
+            }
+        }
+        if !args.is_empty() && self.chance(1, 10) {
+            self.out.push_str(", ");
+        }
+        let close = self.out.len();
+        self.out.push(')');
+        self.sites.push(Site::ArgList { open, close, present: true, n: args.len(), last_start, insert_at });
+    }
+
+    #[allow(dead_code)]
     fn args(&mut self, args: &[Arg]) {
         for (i, a) in args.iter().enumerate() {
             if i > 0 {
@@ -435,20 +530,29 @@ impl<'a> Printer<'a> {
         let tm = &p.templates[p.insts[inst].tmpl];
         self.out.push_str("{");
         self.indent += 1;
+        let mut ranges = Vec::new();
         for (n, &ci) in order.iter().enumerate() {
             if n > 0 {
                 self.out.push(',');
             }
             self.nl();
+            let ca = self.out.len();
             let c = &clauses[ci];
             self.out.push_str(&tm.xtors[ci].name);
+            let insert_at = self.out.len();
             if !c.binders.is_empty() {
                 let bs: Vec<String> = c.binders.iter().map(|b| self.bname(*b)).collect();
+                let open = self.out.len();
                 let _ = write!(self.out, "({})", bs.join(", "));
+                self.sites.push(Site::Binders { open, close: self.out.len() - 1, present: true, n: bs.len(), insert_at });
+            } else {
+                self.sites.push(Site::Binders { open: insert_at, close: insert_at, present: false, n: 0, insert_at });
             }
             self.out.push_str(" => ");
             self.term(&c.body, L_TERM);
+            ranges.push((ca, self.out.len()));
         }
+        self.sites.push(Site::Clauses { ranges, is_case: tm.is_data, inst });
         self.indent -= 1;
         self.nl();
         self.out.push('}');
@@ -477,7 +581,9 @@ impl<'a> Printer<'a> {
             }
             T::Var(b) => {
                 let n = self.bname(*b);
+                let a = self.out.len();
                 self.out.push_str(&n);
+                self.sites.push(Site::VarUse(a, self.out.len()));
             }
             T::Op(a, op, b) => {
                 self.term(a, L_T1);
@@ -535,41 +641,57 @@ impl<'a> Printer<'a> {
             T::Let { b, bound, body } => {
                 let n = self.bname(*b);
                 let ty = p.ty_str(p.binders[*b].ty);
-                let _ = write!(self.out, "let {n}: {ty} = ");
+                let _ = write!(self.out, "let {n}: ");
+                let ta = self.out.len();
+                self.out.push_str(&ty);
+                if p.binders[*b].ty != Ty::I64 {
+                    self.sites.push(Site::TypeUse(ta, self.out.len()));
+                }
+                self.out.push_str(" = ");
                 self.term(bound, L_T3);
                 self.out.push(';');
                 self.nl();
+                let ba = self.out.len();
                 self.term(body, L_TERM);
+                self.sites.push(Site::LetBody { name: n, a: ba, b: self.out.len() });
             }
             T::Call { def, args } => {
-                let _ = write!(self.out, "{}(", p.defs[*def].name);
-                self.args(args);
-                self.out.push(')');
+                let a = self.out.len();
+                self.out.push_str(&p.defs[*def].name);
+                self.sites.push(Site::DefUse(a, self.out.len()));
+                let sig: Vec<(bool, Ty)> = p.defs[*def].params.iter().map(|b| (p.binders[*b].cns, p.binders[*b].ty)).collect();
+                self.arg_list(args, &sig, true);
             }
             T::Ctor { inst, idx, args } => {
                 let tm = &p.templates[p.insts[*inst].tmpl];
+                let a = self.out.len();
                 self.out.push_str(&tm.xtors[*idx].name);
-                if !args.is_empty() {
-                    self.out.push('(');
-                    self.args(args);
-                    self.out.push(')');
-                } else if self.chance(1, 4) {
-                    self.out.push_str("()");
-                }
+                self.sites.push(Site::CtorUse(a, self.out.len()));
+                let sig = p.insts[*inst].xtors[*idx].fields.clone();
+                self.arg_list(args, &sig, false);
             }
             T::Dtor { scrut, inst, idx, args } => {
                 self.term(scrut, L_T2);
                 let tm = &p.templates[p.insts[*inst].tmpl];
-                let _ = write!(self.out, ".{}{}", tm.xtors[*idx].name, p.targs_str(*inst));
-                if !args.is_empty() {
-                    self.out.push('(');
-                    self.args(args);
-                    self.out.push(')');
-                }
+                self.out.push('.');
+                let a = self.out.len();
+                self.out.push_str(&tm.xtors[*idx].name);
+                self.sites.push(Site::DtorUse(a, self.out.len()));
+                let ta = self.out.len();
+                let targs = p.targs_str(*inst);
+                self.out.push_str(&targs);
+                self.sites.push(Site::TypeArgs { a: ta, b: self.out.len(), present: !targs.is_empty() });
+                let sig = p.insts[*inst].xtors[*idx].fields.clone();
+                self.arg_list(args, &sig, false);
             }
             T::Case { scrut, inst, clauses, order } => {
                 self.term(scrut, L_T2);
-                let _ = write!(self.out, ".case{} ", p.targs_str(*inst));
+                self.out.push_str(".case");
+                let ta = self.out.len();
+                let targs = p.targs_str(*inst);
+                self.out.push_str(&targs);
+                self.sites.push(Site::TypeArgs { a: ta, b: self.out.len(), present: !targs.is_empty() });
+                self.out.push(' ');
                 self.clauses(*inst, clauses, order);
             }
             T::New { inst, clauses, order } => {
@@ -579,12 +701,18 @@ impl<'a> Printer<'a> {
             T::Label { b, body } => {
                 let n = self.bname(*b);
                 let _ = write!(self.out, "label {n} {{ ");
+                let ba = self.out.len();
                 self.term(body, L_TERM);
+                self.sites.push(Site::LabelBody { name: n, a: ba, b: self.out.len() });
                 self.out.push_str(" }");
             }
             T::Goto { b, arg } => {
                 let n = self.bname(*b);
-                let _ = write!(self.out, "goto {n}(");
+                self.out.push_str("goto ");
+                let a = self.out.len();
+                self.out.push_str(&n);
+                self.sites.push(Site::CovarUse(a, self.out.len()));
+                self.out.push('(');
                 self.term(arg, L_TERM);
                 self.out.push(')');
             }
@@ -598,6 +726,13 @@ impl<'a> Printer<'a> {
 
 pub fn print_prog(p: &Prog, naming: Naming) -> String {
     Printer::new(p, naming).program()
+}
+
+/// text plus the byte ranges of its syntactic sites
+pub fn print_prog_sites(p: &Prog, naming: Naming) -> (String, Vec<Site>) {
+    let mut pr = Printer::new(p, naming);
+    let text = pr.program_inner();
+    (text, std::mem::take(&mut pr.sites))
 }
 
 /// the same program with syntactic noise; returns (text, whether `-0` occurs as a comparison operand)
